@@ -861,3 +861,11 @@ fn impl_value_for_undeclared_associated_type() {
         }
     }
 }
+
+#[test]
+fn const_value_out_of_range() {
+    // a literal that does not fit the constant's u32 is a parse error, not a panic
+    assert!(chalk_parse::parse_program("struct S { } struct T { f: [S; 99999999999] }").is_err());
+    assert!(chalk_parse::parse_goal("S = 4294967296").is_err());
+    assert!(chalk_parse::parse_program("struct S { } struct T { f: [S; 4294967295] }").is_ok());
+}
